@@ -20,6 +20,11 @@ READY = {
         note="Trusted: Lean kernel + standard axioms; translator (validated per run by differential execution of the Float copies vs the Python originals); hand-written class wiring validated by correspondence; theorems over exact reals — float rounding that changes a discrete outcome is partial (float); adaptive classes compared at batch size 1.",
         tech="Lean 4 proofs (induction over trajectories) about definitions regenerated from the Python AST + translator validation + per-step correspondence of the class wiring + contract search",
         ref="DESIGN.md §6 C03"),
+    "C04": dict(
+        text="Theorems (Lean 4 + Mathlib, over the reals, for EVERY spike train and injected-current sequence): the per-step recurrences of the four synapse classes equal the closed-form impulse-response sums (Q/dt pulse; plus injected current; Q/tau*exp(-(n-k)dt/tau); difference of exponentials), the spike record equals the input, a read at k steps of delay returns the value of step n-k (zero before the start — from the ring-buffer theorem pushes_then_read of C01), off-grid reads are the synapse's interpolation of the two bracketing steps, selectors beyond the supported delay give the overbound value (the value at the limit when none), in-place = out-of-place, clear restores the initial state. Tied to the four real classes by per-step correspondence (current, spike, current_at, spike_at) against the executable model and the independently computed closed forms.",
+        note="Trusted: Lean kernel + standard axioms; hand-written model of the recurrences and of _synparam_at (on top of the C01 ring and C02 select models) validated by correspondence; dyadic dt/charges/delays so grid and range decisions are exact, exp compared at 1e-9; tolerance >= 0; per-element model (C11 covers batch independence).",
+        tech="Lean 4 proofs by induction over spike trains (recurrence = closed-form sum; delayed read = ring-buffer history) + per-step correspondence with the real synapse classes",
+        ref="DESIGN.md §6 C04"),
     "C19": dict(
         text="Theorems (Lean 4) about a model of each encoder's deterministic post-processing with the SAMPLED TENSOR AS A PARAMETER, i.e. for every possible sample sequence (= all generator seeds): output has exactly `steps` rows time-first, rate 0 is silent, a step spikes iff a cumulative interval time falls in it, two spikes of one element are >= refrac/dt steps apart offline and online (induction), Bernoulli probability clamp; the encoder Module constructor/setter state machine keeps frequency*refrac < 1000 under compensation over every setter history. Tied to the code by sample replay (cloned torch.Generator state, same draws) with exact comparison, and by a search over seeds x intensities x steps x dt x frequency x refrac x compensate x online/offline on functional API and Modules.",
         note="Trusted: Lean kernel + standard axioms; hand-written model of the pipeline (cumsum/clamp/long/scatter, count-down) validated by sample replay; the sampler's call pattern (which draws, which shapes, which order) is a recorded assumption re-validated on every case by generator-state equality; sampler statistics are not claimed; float knife-edge cumsum covered by a monotone-rounding lemma.",
